@@ -130,6 +130,51 @@ def cli_exec(root, target_rel, settings, cwd_rel="cwd", order_key=None, faults=(
     return res
 
 
+def cli_exec_real(root, target_rel, settings, cwd_rel="cwd", argform="abs", locale_mode="C"):
+    """The same invocation in a REAL interpreter: real open(), OS traversal order, pipes for stdio, and - the point
+    of this mode - an environment the in-process simulation cannot fake: a non-UTF-8 locale (LC_ALL=C with
+    PYTHONUTF8=0; stdio kept UTF-8 through PYTHONIOENCODING so that only FILE encodings depend on the locale).
+    Returns the same dict shape as cli_exec (no seam log)."""
+    import subprocess
+
+    root = os.path.realpath(root)
+    cwd = os.path.join(root, cwd_rel)
+    for d in (cwd_rel, "home", "tmp"):
+        os.makedirs(os.path.join(root, d), exist_ok=True)
+    if target_rel is None or (argform == "noarg" and os.path.normpath(os.path.join(root, target_rel)) == os.path.normpath(cwd)):
+        target = None
+    else:
+        tabs = os.path.normpath(os.path.join(root, target_rel))
+        target = os.path.relpath(tabs, cwd) if argform == "rel" else tabs
+    args = cli_args(target, settings)
+    env = dict(os.environ, HOME=os.path.join(root, "home"), TMPDIR=os.path.join(root, "tmp"), COLUMNS="80", LINES="24",
+               TERM="xterm-256color", PYTHONIOENCODING="utf-8")
+    for v in seams.TERM_VARS:
+        if v not in ("COLUMNS", "LINES", "TERM"):
+            env.pop(v, None)
+    if locale_mode == "C":
+        env.update(LC_ALL="C", LANG="C", PYTHONUTF8="0")
+        env.pop("PYTHONCOERCECLOCALE", None)
+        env["PYTHONCOERCECLOCALE"] = "0"
+    else:
+        env.update(LC_ALL="C.UTF-8", LANG="C.UTF-8")
+    p = subprocess.run([sys.executable, "-m", "cm_colors.cli.main"] + args, cwd=cwd, env=env, capture_output=True, timeout=240)
+    out = p.stdout.decode("utf-8", "replace").replace(root, "<SBX>")
+    err = p.stderr.decode("utf-8", "replace").replace(root, "<SBX>")
+    res = {"exit": p.returncode if p.returncode in (0, 1, 2) else "raised", "exc": None, "out": out, "err": err, "io": [], "audit": [], "fired": [],
+           "n_open": 0, "args": [a.replace(root, "<SBX>") for a in args]}
+    if p.returncode == 1 and "Traceback" in err:
+        res["exit"] = "raised"
+        res["exc"] = err[-600:]
+    eps = []
+    for q in error_paths(err):
+        if not q.startswith("<SBX>") and not os.path.isabs(q):
+            q = "<SBX>/" + os.path.relpath(os.path.normpath(os.path.join(cwd, q)), root)
+        eps.append(q)
+    res["err_paths"] = eps
+    return res
+
+
 def parse_stdout(out):
     """Parse the CLI summary. Returns dict(processing, A, T, F, failed=[(file, selector)], report, tail)."""
     import re
